@@ -372,9 +372,9 @@ func Check[C any](t *testing.T, prop string, gen func(*rapid.T) C, run func(C, *
 	})
 }
 
-// (the last four are the raft library's own "temporary" errors: a raft group that has no leader at the moment - an election on a machine
+// (`code = Unavailable` is how regatta's API handlers report the errors it classifies as safe to retry; the four before it are the raft library's own "temporary" errors: a raft group that has no leader at the moment - an election on a machine
 // that starves its heartbeats - drops or aborts requests; availability is not what any of the properties states)
-var timeoutRE = regexp.MustCompile(`context deadline exceeded|DeadlineExceeded|i/o timeout|: timeout$|: timeout\b|system is too busy|timeout waiting|request timed out|request dropped as the shard is not ready|request aborted|request canceled|request cancelled`)
+var timeoutRE = regexp.MustCompile(`context deadline exceeded|DeadlineExceeded|i/o timeout|: timeout$|: timeout\b|system is too busy|timeout waiting|request timed out|request dropped as the shard is not ready|request aborted|request canceled|request cancelled|code = Unavailable`)
 
 // transientSigs: further signatures (registered by a check's package) whose failures report the error of an engine call the check judges:
 // when that error is an expired deadline / a raft group without a leader, the call was not answered - the case cannot be judged.
